@@ -208,7 +208,7 @@ func exhaustiveFamily(h *hx.H) {
 	e := &enumerator{s: s}
 	limit := 1000
 	if h.Thorough() {
-		limit = 40000
+		limit = 2500
 	}
 	for _, d := range exhaustiveDocs(h.Thorough()) {
 		d := d
